@@ -40,11 +40,28 @@ def make_case(rng, max_obj, max_sp, labelled=None, hostile=False, colors=False, 
         fams = [f"f{i}" for i in range(max_fam)] if not hostile else ["g_1", "fam2", "x_y_z", "a", "B10", "c3", "d", "e_", "ff", "g", "h1", "i22"][:max_fam]
         k = rng.randint(1, len(fams))
         hidden = rng.sample(fams, k)
+        glued = None
+        if hostile and len(leaves) >= 2 and rng.random() < 0.4:
+            # family names whose concatenations collide ([a, b] vs [ab], [tra, A] vs [traA]): two different syntenies
+            # that read alike once their names are glued together, each carried by some leaf
+            x, y, xy = rng.choice([("a", "b", "ab"), ("tra", "A", "traA"), ("a", "ab", "aab"), ("b_", "a", "b_a"), ("g", "1", "g1"), ("f", "f", "ff")][:5])
+            rest = [f for f in ["c", "d2", "e_", "B10"] if rng.random() < 0.5]
+            hidden = [x, y]
+            for f in [xy] + rest:
+                hidden.insert(rng.choice([0, len(hidden)]), f)  # x and y stay adjacent, in this order
+            k = len(hidden)
+            glued = ([x, y], [xy])
         syn = {}
         for g in leaves:
             sub = rng.sample(hidden, rng.randint(1, k))
             sub.sort(key=hidden.index)
             syn[g] = sub
+        if glued:
+            g1, g2 = rng.sample(leaves, 2)
+            syn[g1], syn[g2] = list(glued[0]), list(glued[1])
+            for g in leaves:
+                if g not in (g1, g2) and rng.random() < 0.5:
+                    syn[g] = list(rng.choice(glued))
         case["syn"] = syn
         case["unordered"] = rng.random() < 0.4 if unordered is None else unordered
     if colors:
